@@ -1,5 +1,8 @@
 import Sudachi.Proofs.Numeric
 import Sudachi.Proofs.NumericLang
+import Sudachi.Proofs.NumericValue
+import Sudachi.Proofs.NumericDenote
+import Sudachi.Proofs.NumericClear
 /-!
 # C15 — joined numerals are normalised to their decimal value
 
@@ -21,12 +24,21 @@ names the variant of the tree it is linked against on every case line.  Theorems
 variant are stated with `(v : Variant)`; a theorem that needs a repair names the switch it needs.
 
 Full statement of the property's first clause (`parse_render`): for every numeral AST `a` built from
-digits, separators, a fraction and the units 十百千万億兆, `parse (render a) = some (canon a)`.
-It is proved below for all ASTs WITHOUT units (`parse_render_digits`, `parse_render_grouped`,
-`parse_render_decimal`, every variant); for unit notation only instances are proved
-(`parse_render_units_partial`, pinned and repaired).  For the pinned code the clause is FALSE for
-coefficients below one (`parse_render_counterexample_leading_zero`, F5); with repair F5 the normal
-form of a numeral with a unit never has a leading zero (`unit_normal_form_no_leading_zero`).
+digits, separators, a fraction and the units 十百千万億兆 that is well-formed (`Numeral.WF`) and whose
+terms fit positionally (`Numeral.Fits`), `parse (render a) = some (canon a)`, the normal form read
+back as a decimal is the value of `a` (sum of coefficient × unit), and it is in canonical form.
+PROVED in full, for EVERY variant (`parse_render_units`, `normal_form_value`, `normal_form_shape`;
+`Proofs/NumericValue.lean` = digit content of `shift_scale`/`add`/`normalize_scale`/`to_string` and
+the forward simulation, `Proofs/NumericDenote.lean` = values); the unit-free special cases
+`parse_render_digits`, `parse_render_grouped`, `parse_render_decimal` are kept.  What the repair F5
+changes is only the rendering: for the pinned code the normal form of a numeral with units keeps the
+leading zeros of a coefficient below one (`parse_render_counterexample_leading_zero`, F5), its VALUE
+is right for every variant; with repair F5 it has no leading zero.  Together with `reject_malformed`:
+the repaired parser accepts exactly the renderings of well-formed fitting numerals
+(`accepted_iff_wellformed`).
+
+The parser object is reused inside a sentence (`clear()` before every run): `clear_is_new`,
+`reused_parser_is_fresh`.
 
 Full statement of the second clause (`reject_malformed`): if `parse text = some s` then `text` is
 `render a` for some well-formed AST `a` (so a malformed grouping is never joined into a value).
@@ -61,12 +73,9 @@ theorem parse_render_decimal (v : Variant) (i : IntPart) (hwf : i.WF) (fs : List
       some (canonInt i ++ fracPart (trimZeros (canonDigits fs))) :=
   Numeric.parse_decimal v i hwf fs hfs
 
-/-- Clause 1, unit notation — PARTIAL: only these instances (the unit-test numerals and one numeral
-per combination rule: small units, large units, coefficient with fraction, zeros between units, a
-25-digit value) are proved; the general theorem over all unit ASTs is not.  The remaining
-combinations are covered by the exhaustive correspondence (all strings up to length 4/5) and the
-value-driven oracle. -/
-theorem parse_render_units_partial (v : Variant) (hv : v = Variant.pinned ∨ v = Variant.repaired) :
+/-- Clause 1, unit notation, decided instances (the unit-test numerals and one numeral per
+combination rule); the general theorem is `parse_render_units` below. -/
+theorem parse_render_units_instances (v : Variant) (hv : v = Variant.pinned ∨ v = Variant.repaired) :
     parse v "千三百二十七".toList = some "1327".toList ∧
     parse v "千十七".toList = some "1017".toList ∧
     parse v "三兆2千億千三百二十七万一四.〇五".toList = some "3200013270014.05".toList ∧
@@ -272,6 +281,111 @@ theorem single_repair_witnesses :
       | _ => []) = [(0, 1, ['7']), (1, 2, ['十']), (2, 3, ['九']), (3, 4, ['三']), (4, 5, ['.'])] := by
   refine ⟨by decide, by decide⟩
 
+
+/-! ## unit notation: the value half (every variant) -/
+
+/-- **Clause 1, full statement** (was `parse_render_units_partial`): every well-formed numeral AST
+`a` (digits in any script, thousands separators, fraction, small units 十百千 with or without
+coefficient, large units 万億兆, coefficients with fractions such as `1.5百万`) whose terms fit
+positionally is accepted — every character, and `done()` — and its normal form is `canon v a`:
+`to_string` of the digits of the terms written at their decimal positions with the gaps filled with
+zeros (`numeralPN`, `PN.render`), and with repair F5 the leading zeros stripped when a unit was
+written.  Holds for EVERY variant (pinned included); no restriction on the magnitude. -/
+theorem parse_render_units (v : Variant) (a : Numeral) (hw : a.WF) (hf : a.Fits) :
+    parse v (render a) = some (canon v a) :=
+  parse_render_canon v a hw hf
+
+/-- **Clause 1, the value**: the normal form, read back as a decimal (`decimalOf`: digits before
+and after the point), is the value of the numeral — the sum over its groups of (sum of
+coefficient × small unit, plus the plain number) × large unit, a unit without coefficient counting
+as 1 (`Numeral.value`; `Dec.eqv` = the same rational `m / 10^k`).  Every variant: repair F5 changes
+the rendering, not the value — this is the part of the clause that survives for the pinned code. -/
+theorem normal_form_value (v : Variant) (a : Numeral) (hw : a.WF) (hf : a.Fits) :
+    ∃ s, parse v (render a) = some s ∧ (decimalOf s).eqv a.value :=
+  ⟨canon v a, parse_render_canon v a hw hf, canon_value v a hw hf⟩
+
+/-- **Clause 1, canonical form**, stated exactly as the code renders: (1) a numeral WITHOUT units is
+rendered as the written number — all integer digits (leading zeros KEPT), separators removed,
+trailing fraction zeros dropped and the point too when nothing is left — for every variant; (2) with
+repair F5 a numeral WITH a unit has no leading zero (`0`, a non-zero first digit, or `0.`…);
+(3) for the pinned code a numeral with a unit is `to_string` of the positional number as it is
+(leading zeros of a coefficient below one kept: finding F5); in all cases the fraction is the
+`fracPart (trimZeros …)` of `PN.render`. -/
+theorem normal_form_shape (v : Variant) (a : Numeral) :
+    (a.hasUnit = false → canon v a = match a.rest.last with
+      | none => ['0']
+      | some r => canonInt r.int ++ fracPart (trimZeros (canonDigits r.frac))) ∧
+    (v.f5 = true → a.hasUnit = true → NoLeadingZero (canon v a)) ∧
+    (v.f5 = false → canon v a = PN.renderO (numeralPN a)) := by
+  refine ⟨canon_plain v a, fun hv hu => canon_units v hv a hu, ?_⟩
+  intro h5
+  simp [canon, h5]
+
+/-- **accepted ⇔ well-formed** (repaired code; `⇒` is `reject_malformed` and needs F1–F4, `⇐` holds
+for every variant): the parser accepts a text exactly when it is the rendering of a well-formed
+numeral whose terms fit, and then the normal form is `canon` of ANY such numeral -/
+theorem accepted_iff_wellformed (v : Variant) (h1 : v.f1 = true) (h2 : v.f2 = true) (h3 : v.f3 = true)
+    (h4 : v.f4 = true) (text : List Char) :
+    (∃ s, parse v text = some s) ↔ ∃ a : Numeral, a.WF ∧ a.Fits ∧ render a = text := by
+  constructor
+  · rintro ⟨s, hs⟩
+    exact accepted_wellformed v h1 h2 h3 h4 text s hs
+  · rintro ⟨a, hw, hf, rfl⟩
+    exact ⟨canon v a, parse_render_canon v a hw hf⟩
+
+/-- Denotation of `shift_scale`: a `StringNumber` that holds the positional number `x` (digits `ds`,
+last digit at the decimal position `ex`; `SN.Rep` abstracts from the scale/point encoding) holds
+`x` moved up by `e` positions afterwards, and that is `x × 10^e`. -/
+theorem shift_scale_denotation (s : SN) (x : PN) (e : Nat) (h : s.Rep x) :
+    (s.shiftScale e).Rep (x.shift e) ∧ (x.shift e).val.eqv (x.val.shl e) :=
+  ⟨rep_shift s x e h, val_shift x e⟩
+
+/-- Denotation of `add` for two non-zero numbers: it succeeds EXACTLY when the second number lies
+entirely in the positions the first leaves free (`y.hi ≤ x.ex`, the condition of `add_good`); then
+the result holds the digits of the first, the zeros of the gap and the digits of the second — and
+that is the SUM; the argument, normalised by `int_length`, still holds its number. -/
+theorem add_denotation (a b : SN) (x y : PN) (ha : a.Rep x) (hb : b.Rep y) :
+    ((a.add b).1 = true ↔ y.hi ≤ x.ex) ∧
+    (y.hi ≤ x.ex → (a.add b).2.1.Rep (x.join y) ∧ (a.add b).2.2.Rep y ∧ (x.join y).val.eqv (x.val.add y.val)) := by
+  have h1 := (add_good a b ha.1 hb.1).1
+  rw [rep_hi b y hb, ha.2.2.2] at h1
+  refine ⟨h1, fun hfit => ?_⟩
+  obtain ⟨_, k2, k3⟩ := rep_add a b x y ha hb hfit
+  exact ⟨k2, k3, val_join x y hfit⟩
+
+/-- Denotation of `normalize_scale`: the number held does not change; afterwards there is no point,
+or no scale and the point strictly inside the digits. -/
+theorem normalize_scale_denotation (s : SN) (x : PN) (h : s.Rep x) :
+    s.normalizeScale.Rep x ∧
+    (s.normalizeScale.point = none ∨
+      ∃ p, s.normalizeScale.point = some p ∧ s.normalizeScale.scale = 0 ∧ 1 ≤ p ∧ p < s.sig.length) :=
+  ⟨rep_normalize s x h, normalize_form s h.1⟩
+
+/-- Denotation of `to_string`: the rendering of the number held (`PN.render`: zeros up to the units,
+or the point before the fraction digits with trailing zeros — and then the point — dropped; no
+panic), and the rendering read back is the value of the number. -/
+theorem to_string_denotation (s : SN) (x : PN) (h : s.Rep x) (hd : Digits x.ds) :
+    s.toStr = some x.render ∧ (decimalOf x.render).eqv x.val := by
+  refine ⟨rep_toStr s x h (fun c hc => digit_ne_point c (hd c hc)), decimalOf_render x hd ?_⟩
+  rw [← rep_hi s x h]
+  exact good_hi_pos s h.1
+
+/-! ## the parser object is reused: `clear()` -/
+
+/-- **`clear()` restores the initial state**: whatever texts the parser went through (accepted or
+rejected characters, `done()`, `get_normalized()` with its write-back into `total`), after `clear()`
+it is `NumericParser::new()`, field by field.  (Hypothesis: the parser did not panic — the
+model-only mark `bad` of a `usize` underflow; `clear()` keeps the mark: `Numeric.clear_anyBad`.) -/
+theorem clear_is_new (p : Parser) (h : p.anyBad = false) : p.clear = Parser.new :=
+  Numeric.clear_is_new p h
+
+/-- **a reused parser behaves like a new one** (the observation tied by the hook `verif_parse_seq`):
+any sequence of texts sent through ONE parser with `clear()` in between is observed exactly like
+each text through a fresh parser; a panic of one of them is a panic of the sequence. -/
+theorem reused_parser_is_fresh (v : Variant) (ts : List (List Char)) :
+    verifParseSeq v ts = Wire.allSome (ts.map (verifParse v)) :=
+  seq_is_fresh v ts
+
 /-! non-vacuity of the hypotheses -/
 
 /-- the repaired variant has the four switches `reject_malformed` asks for, and there are accepted
@@ -331,6 +445,57 @@ example : ((Parser.new.feed .repaired "6.".toList 0).2.2.done .repaired).2.err =
 example : parse { Variant.pinned with f5 := true } "0.5百".toList = some "50".toList ∧
     (∃ c ∈ "0.5百".toList, IsUnit c) := by
   refine ⟨by decide, '百', by decide, Or.inl ⟨.hundred, rfl⟩⟩
+
+
+/-- `exUnits` (`1.5百万1.5千20`, well-formed and fitting, see below): its normal form in both
+variants, its value 1501520, it has units -/
+example : canon .repaired exUnits = "1501520".toList ∧ canon .pinned exUnits = "1501520".toList ∧
+    exUnits.value.eqv ⟨1501520, 0⟩ ∧ exUnits.hasUnit = true := by
+  refine ⟨by decide, by decide, ?_, rfl⟩
+  unfold Dec.eqv
+  decide
+
+/-- `0.1万` as an AST: where the variants differ (F5) — the rendering, not the value (1000) -/
+def exTenth : Numeral :=
+  ⟨[(⟨[], some ⟨⟨[⟨false, 0⟩], []⟩, [⟨false, 1⟩]⟩⟩, .man)], ⟨[], none⟩⟩
+
+example : render exTenth = "0.1万".toList ∧ canon .pinned exTenth = "01000".toList ∧
+    canon .repaired exTenth = "1000".toList ∧ (decimalOf (canon .pinned exTenth)).eqv exTenth.value ∧
+    (decimalOf (canon .repaired exTenth)).eqv exTenth.value ∧ exTenth.value.eqv ⟨1000, 0⟩ := by
+  refine ⟨by decide, by decide, by decide, ?_, ?_, ?_⟩ <;> (unfold Dec.eqv; decide)
+
+/-- a numeral without units (`007.50`): hypothesis of `normal_form_shape` (1) -/
+example : (⟨[], ⟨[], some ⟨⟨[⟨false, 0⟩, ⟨false, 0⟩, ⟨true, 7⟩], []⟩, [⟨false, 5⟩, ⟨false, 0⟩]⟩⟩⟩ : Numeral).hasUnit = false ∧
+    canon .repaired ⟨[], ⟨[], some ⟨⟨[⟨false, 0⟩, ⟨false, 0⟩, ⟨true, 7⟩], []⟩, [⟨false, 5⟩, ⟨false, 0⟩]⟩⟩⟩ = "007.5".toList := by
+  refine ⟨rfl, by decide⟩
+
+/-- a `StringNumber` that holds a positional number: `1.5` with scale 3 (that is 1500) holds the
+digits `15` with the last digit at position 2; the digit `2` at position 0 fits below it -/
+example : SN.Rep { sig := "15".toList, scale := 3, point := some 1 } ⟨"15".toList, 2⟩ ∧
+    SN.Rep { sig := "2".toList } ⟨"2".toList, 0⟩ ∧ (⟨"2".toList, 0⟩ : PN).hi ≤ (⟨"15".toList, 2⟩ : PN).ex ∧
+    Digits ['1', '5'] := by
+  refine ⟨⟨⟨by decide, ?_⟩, rfl, rfl, by decide⟩, ⟨⟨by decide, ?_⟩, rfl, rfl, by decide⟩, by decide, ?_⟩
+  · intro p hp
+    simp only [Option.some.injEq] at hp
+    subst hp
+    exact ⟨by decide, by decide⟩
+  · intro p hp; cases hp
+  · intro c hc
+    simp only [List.mem_cons, List.not_mem_nil, or_false] at hc
+    rcases hc with rfl | rfl
+    · exact ⟨1, rfl⟩
+    · exact ⟨5, rfl⟩
+
+/-- a parser that has been used (`1万` with `done()`) is not the new parser, did not panic, and
+`clear()` makes it the new parser -/
+example : ((Parser.new.feed .repaired "1万".toList 0).2.2.done .repaired).2.anyBad = false ∧
+    ((Parser.new.feed .repaired "1万".toList 0).2.2.done .repaired).2 ≠ Parser.new ∧
+    ((Parser.new.feed .repaired "1万".toList 0).2.2.done .repaired).2.clear = Parser.new := by
+  refine ⟨by decide, by decide, by decide⟩
+
+/-- the C15b sentence at the parser: a unit numeral, `clear()`, a zero-led digit string -/
+example : verifParseSeq .repaired ["三千".toList, "007".toList] =
+    some [(2, 0, true, "3000".toList), (3, 0, true, "007".toList)] := by decide
 
 
 /-- `12,345` -/
